@@ -658,6 +658,9 @@ class Engine:
                 ek = 'int'
             else:
                 ek = 'ref'
+                cs = {x.cls for x in items if isinstance(x, VRef)}
+                if len(cs) == 1 and None not in cs and all(isinstance(x, (VRef, VNoneT)) for x in items):
+                    ek = 'ref:' + cs.pop()        # a literal list of objects of one static class
         l = st.alloc('list')
         st.wr('$len', l, z3.IntVal(len(items)))
         if items:
@@ -675,7 +678,8 @@ class Engine:
         k = z3.Int(fresh_name('k'))
         dst = z3.Const(fresh_name('cat'), ARR_IS if ek == 'str' else ARR_II)
         sa, sb = st.larr(a.t, ek), st.larr(b.t, ek)
-        st.pc.append(z3.ForAll([k], z3.Select(dst, k) == z3.If(k < na, z3.Select(sa, k), z3.Select(sb, k - na))))
+        st.pc.append(smt.forall([k], z3.Select(dst, k) == z3.If(k < na, z3.Select(sa, k), z3.Select(sb, k - na)),
+                                patterns=[z3.Select(dst, k)]))
         st.lset_all(l, dst, ek)
         return VList(l, ek)
 
